@@ -646,6 +646,9 @@ func (e *Exec) noteAlloc(bytes int) {
 	if e.cfg.AllocFactor > 0 && bytes > e.cfg.AllocFactor*e.cfg.InputLen+e.cfg.AllocBase {
 		key := "alloc/" + e.siteKey("size")
 		e.violation(key, "alloc", fmt.Sprintf("allocation of %d bytes for %d input bytes", bytes, e.cfg.InputLen), e.ensureModel())
+		if o := e.rep.Obls[key]; o != nil && len(o.Violations) > 0 {
+			o.Violations[len(o.Violations)-1].Bytes = bytes
+		}
 	}
 }
 
